@@ -44,6 +44,9 @@ def run(repo, chk):
     chk.ob("R16.1", "transform.transform:globals-pile-defaults-to-ABSENT", "DictPile(glb, __builtins__, default=ABSENT)" in norm(tr.node), tr.where,
            "the globals lookup used by generated code returns ABSENT for an undefined name (source of the taint)")
 
+    from .shared import dictpile_obligations
+    dictpile_obligations(repo, chk, "R16.1")
+
     # ---------------- R16.1 / R16.4
     leaks, sanitised, eager = {}, 0, []
     for hname, paths in H.items():
